@@ -2,7 +2,10 @@
 
 Shape (C): full Cartesian product
     aperture spec (6 pixel classes x sizes, + sky apertures) x data variant (finite, NaN/inf) x
-    mask (None, one pixel, block) x error (None, generic) x sigma clip (None, 3s/1it, 1.5s/5it) x
+    mask (None, one pixel, block) x error condition (None, generic finite, non-finite (NaN / +inf / -inf) at: three
+    fixed pixels [inside the summed set of some positions, excluded from others] / every masked pixel / every pixel
+    where data is non-finite / every zero-weight pixel / every sigma-clipped pixel / every pixel outside all summed
+    sets) x sigma clip (None, 3s/1it, 1.5s/5it) x
     sum_method (exact, center, subpixel 5) x local_bkg (None, scalar, per position) x
     position list (interior generic, integer centre, pixel corner, straddling each of the four edges,
     image corner, fully outside) -- as one multi-position aperture and, on a stated sub-product, as
@@ -17,7 +20,9 @@ Oracle (plain Python, pixel by pixel; weights registered in the image by the har
          elongation, ellipticity, cxx/cxy/cyy.
     T  = the same with the sum_method weights (w > 0): sum = sum(w v), sum_err = sqrt(sum(w e^2)),
          sum_aper_area = sum(w)  -- i.e. aperture_photometry / area_overlap of the background-subtracted data
-         with the total mask -- whenever T is not empty.
+         with the total mask -- whenever T is not empty.  The error map is read ONLY at the pixels of T: a NaN/inf
+         error at a masked / non-finite-data / zero-weight / clipped pixel must not change sum_err, and a NaN/inf
+         error at a pixel of T gives what the quadrature sum gives (NaN resp. inf), as aperture_photometry does.
     S (resp. T) empty or box outside the image: NaN, never a number, never an exception.
 """
 import math
@@ -29,15 +34,23 @@ from ..runner import Acc
 
 PROPERTY = 'C16'
 LEVEL = 'exploration'
-RULE = ('full Cartesian product aperture spec x data variant x mask x error x sigma_clip x sum_method x local_bkg, each '
+RULE = ('full Cartesian product aperture spec x data variant x mask x error condition x sigma_clip x sum_method x local_bkg '
+        '(error conditions whose map is identical to the finite one by construction -- "at masked pixels" with mask=None, '
+        '"where data is non-finite" on finite data, "at clipped pixels" without sigma clip -- are not repeated), each '
         'configuration built as one ApertureStats over the whole position list (and as scalar apertures on the sub-product '
         'mask=None); one evaluation = one (configuration, position) with every listed property compared with the direct '
         'computation; non-trivial when the centre-method pixel set S or the sum-method set T of that position is not empty '
-        '(measured from the registered weights); cases are distinct by construction (distinct product indices)')
+        '(measured from the registered weights); counters sum_err:* count the (configuration, position) cases whose bounding '
+        'box really contains a non-finite error value at an excluded pixel / at a pixel of T; cases are distinct by '
+        'construction (distinct product indices)')
 ASSUMPTIONS = ['aperture weights / bbox from to_mask() are correct (C01); their registration in the image is done by the harness',
                'astropy.stats.SigmaClip applied to a 1-D array of values is trusted (it is re-applied independently to the '
                'reference pixel set, in the same row-major order)',
                'one 7x8 image per variant (thorough: plus a 5x9 image); one distortion-free TAN WCS for sky apertures',
+               'error maps are bare arrays; the non-finite error conditions place NaN, +inf, -inf (cycled by pixel index) on a '
+               'pixel set computed by the harness from the reference sets S / T (an input choice: the sum_err oracle does not '
+               'depend on how the set was chosen); a non-finite error at a pixel whose weight is rounding noise (0 < |w| < 1e-12) '
+               'is accepted either way',
                'shape values follow the documented SourceExtractor regularisation of thin covariances; decisions within '
                '1e-9 of its thresholds are accepted either way']
 
@@ -46,6 +59,17 @@ CLIPS = [None, [3.0, 1], [1.5, 5]]
 LBKG = ['none', 'scalar', 'per']
 MASKS = ['none', 'pixel', 'block']
 VARIANTS = ['finite', 'nonfinite']
+# error conditions: None / generic finite map / the finite map with NaN, +inf, -inf (cycled) written at ...
+ERRORS = ['none', 'finite',
+          'nf-fixed',         # three fixed pixels: in the summed set T of some positions, excluded (or outside the box) for others
+          'nf-masked',        # every pixel flagged in mask=                       (needs mask != none)
+          'nf-data',          # every pixel where data is NaN/inf                  (needs the non-finite data variant)
+          'nf-zero-weight',   # every in-image pixel whose sum-method weight is exactly 0 for every position (box corners, annulus holes)
+          'nf-clipped',       # every pixel rejected by the sigma clip and summed by no position   (needs a sigma clip)
+          'nf-excluded']      # every pixel that is in the summed set T of no position (union of all of the above + outside the boxes)
+NONFINITE = [math.nan, math.inf, -math.inf]
+# quick tier: the scalar-aperture sub-product uses these error conditions only (thorough: all of ERRORS)
+SCALAR_ERRORS_QUICK = ['finite', 'nf-fixed', 'nf-excluded']
 
 STATS = ['min', 'max', 'mean', 'median', 'mode', 'std', 'var', 'mad_std', 'biweight_location', 'biweight_midvariance']
 SHAPES = ['covar_sigx2', 'covar_sigxy', 'covar_sigy2', 'semimajor_sigma', 'semiminor_sigma', 'orientation',
@@ -160,14 +184,66 @@ class ApCtx:
         self.cls = [R.posclass(box, self.shape) for box, _ in self.reg['center']]
 
 
+def fixed_bad_pixels(shape):
+    """'nf-fixed': (iy, ix, value) -- NaN / +inf in the interior, -inf in the top-left corner pixel."""
+    ny, nx = shape
+    return [(2, 4, math.nan), (4, 2, math.inf), (ny - 1, 0, -math.inf)]
+
+
+def error_map(ctx, cfg, exs):
+    """The error array of configuration cfg (None when no error is given).  exs: the error-independent reference
+    sets of every position of this ApertureStats (used only to CHOOSE where the non-finite values go)."""
+    kind = cfg['error']
+    if kind == 'none':
+        return None
+    e = ctx.img['err']
+    if kind == 'finite':
+        return e
+    ny, nx = ctx.shape
+    if kind == 'nf-fixed':
+        e = e.copy()
+        for iy, ix, v in fixed_bad_pixels(ctx.shape):
+            e[iy, ix] = v
+        return e
+    allpix = [(iy, ix) for iy in range(ny) for ix in range(nx)]
+    if kind == 'nf-masked':
+        m = make_mask(cfg['mask'], ctx.shape)
+        bad = [] if m is None else [p for p in allpix if m[p]]
+    elif kind == 'nf-data':
+        d = ctx.img[cfg['variant']]
+        bad = [p for p in allpix if not np.isfinite(d[p])]
+    elif kind == 'nf-zero-weight':
+        nonzero = set()
+        for _, wl in ctx.reg[cfg['sum_method']]:
+            if wl is not None:
+                nonzero |= {(iy, ix) for iy, ix, w in wl if w != 0}
+        bad = [p for p in allpix if p not in nonzero]
+    else:
+        summed = set()
+        preclip = set()
+        for ex in exs:
+            summed |= {(iy, ix) for iy, ix, _, _ in ex['T']}
+            preclip |= {(iy, ix) for iy, ix, _, _ in ex['Tpre']}
+        if kind == 'nf-clipped':
+            bad = [p for p in allpix if p in preclip and p not in summed]
+        elif kind == 'nf-excluded':
+            bad = [p for p in allpix if p not in summed]
+        else:
+            raise ValueError(kind)
+    e = e.copy()
+    for iy, ix in bad:
+        e[iy, ix] = NONFINITE[(iy * nx + ix) % 3]
+    return e
+
+
 def expected(ctx, j, cfg):
-    """Direct computation for position j (index into ctx.idx) under configuration cfg."""
+    """Direct computation for position j (index into ctx.idx) under configuration cfg: everything that does not
+    depend on the error map (sum_err is added by expected_sum_err once the map of the configuration is known)."""
     k = ctx.idx[j]
     data = ctx.img[cfg['variant']]
-    err = ctx.img['err'] if cfg['error'] else None
     mask = make_mask(cfg['mask'], ctx.shape)
     lb = {'none': 0.0, 'scalar': 0.7, 'per': 0.05 + 0.1 * k}[cfg['local_bkg']]
-    out = {'S': [], 'T': [], 'ambiguous_weight': False}
+    out = {'S': [], 'T': [], 'Tpre': [], 'ambiguous_weight': False}
 
     def usable(iy, ix):
         d = data[iy, ix]
@@ -203,6 +279,7 @@ def expected(ctx, j, cfg):
         if any(0 < abs(w) < 1e-12 for _, _, w in wl):
             out['ambiguous_weight'] = True      # |w| ~ 1e-17 (annulus outer - inner): in or out is rounding noise
         T = [(iy, ix, w, float(data[iy, ix]) - lb) for iy, ix, w in wl if w > 0 and usable(iy, ix)]
+        out['Tpre'] = T
         keep = clip_keep([v for _, _, _, v in T], cfg['clip'])
         T = [p for p, kf in zip(T, keep) if kf]
     out['T'] = T
@@ -210,10 +287,29 @@ def expected(ctx, j, cfg):
         exp['sum'] = math.fsum(w * v for _, _, w, v in T)
         exp['sum_aper_area'] = math.fsum(w for _, _, w, _ in T)
         out['sum_scale'] = math.fsum(w * abs(v) for _, _, w, v in T)
-        if err is not None:
-            exp['sum_err'] = math.sqrt(math.fsum(w * float(err[iy, ix]) ** 2 for iy, ix, w, _ in T))
     out['exp'] = exp
     return out
+
+
+def expected_sum_err(ctx, j, cfg, ex, err):
+    """sum_err = sqrt(sum_T w e^2), reading the error map at the pixels of T only (NaN when T is empty or no error is
+    given; NaN / inf when the map is NaN / inf at a pixel of T: that is what the quadrature sum -- aperture_photometry --
+    gives).  Also measures where the non-finite error values of this position's box are."""
+    ex['err_excluded_nf'] = ex['err_included_nf'] = 0
+    ex['err_ambiguous'] = False
+    if err is None:
+        return
+    T = ex['T']
+    if T:
+        ex['exp']['sum_err'] = math.sqrt(math.fsum(w * float(err[iy, ix]) ** 2 for iy, ix, w, _ in T))
+    _, wl = ctx.reg[cfg['sum_method']][j]
+    if wl is not None:
+        inT = {(iy, ix) for iy, ix, _, _ in T}
+        for iy, ix, w in wl:
+            if not np.isfinite(err[iy, ix]):
+                ex['err_included_nf' if (iy, ix) in inT else 'err_excluded_nf'] += 1
+                if 0 < abs(w) < 1e-12:
+                    ex['err_ambiguous'] = True      # non-finite error where the weight is rounding noise: in or out is noise
 
 
 def cfg_case(ctx, cfg, j, prop):
@@ -222,7 +318,7 @@ def cfg_case(ctx, cfg, j, prop):
             'pos_index': k, 'position': list(ctx.allpos[k]), 'prop': prop, **cfg}
 
 
-def build(ctx, cfg):
+def build(ctx, cfg, err):
     from astropy.stats import SigmaClip
     from photutils.aperture import ApertureStats
     data = ctx.img[cfg['variant']]
@@ -232,7 +328,7 @@ def build(ctx, cfg):
                   else 0.05 + 0.1 * ctx.scalar_index)}[cfg['local_bkg']]
     clip = None if cfg['clip'] is None else SigmaClip(sigma=cfg['clip'][0], maxiters=cfg['clip'][1])
     m, sub = [x for x in METHODS if x[0] == cfg['sum_method']][0]
-    return ApertureStats(data, ctx.aper, error=ctx.img['err'] if cfg['error'] else None,
+    return ApertureStats(data, ctx.aper, error=err,
                          mask=make_mask(cfg['mask'], ctx.shape), wcs=ctx.wcs, sigma_clip=clip, sum_method=m,
                          subpixels=sub, local_bkg=lb)
 
@@ -244,6 +340,9 @@ def site_for(ctx, j, ex, prop, cfg):
         return 'centroid:box-cut-low-edge' if c in ('cut-low', 'cut-both') else f'centroid:box-{c}'
     if prop == 'sum_aper_area' and not ex['S'] and ex['T']:
         return 'sum_aper_area:centre-set-empty'
+    if prop == 'sum_err' and (ex['err_excluded_nf'] or ex['err_included_nf']):
+        # the error map has NaN/inf inside this position's box: only at excluded pixels / (also) at a pixel of T
+        return 'sum_err:non-finite-error-' + ('at-pixel-of-T' if ex['err_included_nf'] else 'at-excluded-pixel')
     grp = 'sum' if prop in ('sum', 'sum_err', 'sum_aper_area') else ('shape' if prop in SHAPES else ('statistic' if prop in STATS else prop))
     c = 'cut' if c.startswith('cut') else c
     tags = ('' if cfg['clip'] is None else ':clip') + ('' if cfg['local_bkg'] == 'none' else ':bkg')
@@ -254,14 +353,18 @@ def site_for(ctx, j, ex, prop, cfg):
 
 def check_config(acc, ctx, cfg, only=None):
     data0 = ctx.img[cfg['variant']].copy()
+    n = len(ctx.idx)
+    exs = [expected(ctx, j, cfg) for j in range(n)]
+    err = error_map(ctx, cfg, exs)
+    err0 = None if err is None else err.copy()
+    for j in range(n):
+        expected_sum_err(ctx, j, cfg, exs[j], err)
     try:
-        st = build(ctx, cfg)
+        st = build(ctx, cfg, err)
     except Exception as exc:  # noqa: BLE001
         acc.violation('raises', f'ApertureStats():{type(exc).__name__}', cfg_case(ctx, cfg, 0, '__init__'), repr(exc), 'an object')
         return
     got = {}
-    n = len(ctx.idx)
-    exs = [expected(ctx, j, cfg) for j in range(n)]
     # the implementation's regularisation loop would run for > 20000 iterations: do not read the shape values at all
     no_shapes = any(e.get('covs', 0) is None for e in exs)
     if no_shapes:
@@ -287,7 +390,14 @@ def check_config(acc, ctx, cfg, only=None):
         ex = exs[j]
         exp = ex['exp']
         acc.case(nontrivial=bool(ex['S'] or ex['T']))
-        acc.outcome(f"{ctx.cls[j]}|S{min(len(ex['S']), 3)}|T{min(len(ex['T']), 3)}")
+        etag = ('-' if err is None else
+                'f' if not (ex['err_excluded_nf'] or ex['err_included_nf']) else
+                ('x' if ex['err_excluded_nf'] else '') + ('i' if ex['err_included_nf'] else ''))
+        acc.outcome(f"{ctx.cls[j]}|S{min(len(ex['S']), 3)}|T{min(len(ex['T']), 3)}|E{etag}")
+        if ex['T'] and ex['err_excluded_nf'] and not ex['err_included_nf']:
+            acc.counters[f"sum_err:{cfg['error']}:T-not-empty,non-finite-error-only-at-excluded-box-pixels"] += 1
+        if ex['err_included_nf']:
+            acc.counters[f"sum_err:{cfg['error']}:non-finite-error-at-a-pixel-of-T"] += 1
         vs = ex.get('vscale', 0.0)
         for p, g in got.items():
             g = float(g[j])
@@ -296,8 +406,9 @@ def check_config(acc, ctx, cfg, only=None):
                 if ex['ambiguous_weight'] and cfg['clip'] is not None:
                     acc.skip('sum with sigma clip where a weight is rounding noise (|w| < 1e-12)')
                     continue
-                if p == 'sum_err' and not cfg['error']:
-                    e = math.nan
+                if p == 'sum_err' and ex['err_ambiguous']:
+                    acc.skip('sum_err with a non-finite error value where the weight is rounding noise (|w| < 1e-12)')
+                    continue
                 tol = RT * (ex.get('sum_scale', 0.0) if p == 'sum' else (abs(e) if e == e else 0.0)) + 1e-13
                 ok = R.same(g, e, tol)
             elif p == 'center_aper_area':
@@ -318,13 +429,16 @@ def check_config(acc, ctx, cfg, only=None):
                 if ok is None:
                     continue
             if not ok:
-                clause = 'nan-iff-empty' if (e != e) != (g != g) and p not in SHAPES else \
+                clause = 'sum_err-nonfinite-error-map' if (p == 'sum_err' and (ex['err_excluded_nf'] or ex['err_included_nf'])) else \
+                    'nan-iff-empty' if (e != e) != (g != g) and p not in SHAPES else \
                     ('sum' if p in ('sum', 'sum_err', 'sum_aper_area') else ('shape' if p in SHAPES else
                                                                                ('centroid' if 'centroid' in p else 'statistic')))
                 acc.violation(clause, site_for(ctx, j, ex, p, cfg), cfg_case(ctx, cfg, j, p), g, e,
                               f"{p}: |S|={len(ex['S'])} |T|={len(ex['T'])} box {ctx.reg['center'][j][0]} class {ctx.cls[j]}")
     if not np.array_equal(data0, ctx.img[cfg['variant']], equal_nan=True):
         acc.violation('input-modified', 'data', cfg_case(ctx, cfg, 0, 'data'))
+    if err is not None and not np.array_equal(err0, err, equal_nan=True):
+        acc.violation('input-modified', 'error', cfg_case(ctx, cfg, 0, 'error'))
     return st, got
 
 
@@ -392,10 +506,19 @@ def shape_ok(acc, p, g, ex):
     return False, first
 
 
-def all_cfgs(variant, mask):
+def error_applies(error, variant, mask, clip):
+    """False when the error condition gives, by construction, the same map as 'finite' (not repeated)."""
+    return not ((error == 'nf-masked' and mask == 'none') or (error == 'nf-data' and variant == 'finite')
+                or (error == 'nf-clipped' and clip is None))
+
+
+def all_cfgs(variant, mask, errors=None):
+    # 'finite' first, 'none' second (the order of the previous two-valued error axis), then the non-finite conditions
     out = []
-    for error in (True, False):
+    for error in (errors or (['finite', 'none'] + ERRORS[2:])):
         for clip in CLIPS:
+            if not error_applies(error, variant, mask, clip):
+                continue
             for sm, _ in METHODS:
                 for lbk in LBKG:
                     out.append({'variant': variant, 'mask': mask, 'error': error, 'clip': clip, 'sum_method': sm,
@@ -429,9 +552,8 @@ def run_unit(unit, tier, seed):
         npos = len(positions(shape, seed))
         for k in range(npos):
             ctx = ApCtx(shape, spec, False, seed, scalar_index=k)
-            for cfg in all_cfgs(unit['variant'], unit['mask']):
-                if cfg['error'] or tier == 'thorough':
-                    check_config(acc, ctx, cfg)
+            for cfg in all_cfgs(unit['variant'], unit['mask'], SCALAR_ERRORS_QUICK if tier == 'quick' else None):
+                check_config(acc, ctx, cfg)
         return acc
     sky = unit['kind'] == 'sky'
     spec = (sky_specs(tier) if sky else aper_specs(tier))[unit['aper']]
@@ -461,6 +583,8 @@ def check_table(acc, ctx, cfg, st, got):
 def replay(case, seed):
     acc = Acc()
     cfg = {k: case[k] for k in ('variant', 'mask', 'error', 'clip', 'sum_method', 'local_bkg')}
+    if isinstance(cfg['error'], bool):          # replay files written before the error axis was enlarged
+        cfg['error'] = 'finite' if cfg['error'] else 'none'
     ctx = ApCtx(tuple(case['shape']), case['aper'], case['sky'], seed,
                 scalar_index=case['pos_index'] if case.get('scalar') else None)
     r = check_config(acc, ctx, cfg, only=case)
@@ -472,10 +596,16 @@ def replay(case, seed):
 def describe(tier, seed):
     return {'alphabet': {'image_shapes': [list(s) for s in image_shapes(tier)], 'apertures': aper_specs(tier),
                          'sky_apertures': sky_specs(tier), 'positions': [list(p) for p in positions(image_shapes(tier)[0], seed)],
-                         'data_variants': VARIANTS, 'masks': MASKS, 'error': [True, False], 'sigma_clip': CLIPS,
+                         'data_variants': VARIANTS, 'masks': MASKS, 'error': ERRORS,
+                         'error_nonfinite_values': 'NaN, +inf, -inf cycled by pixel index (iy*nx+ix) % 3; nf-fixed: '
+                         + repr([(iy, ix, str(v)) for iy, ix, v in fixed_bad_pixels(image_shapes(tier)[0])]),
+                         'sigma_clip': CLIPS,
                          'sum_method': [list(m) for m in METHODS], 'local_bkg': LBKG, 'properties': PROPS},
-            'bound': {'units': len(plan(tier, seed)), 'configs_per_unit': 54,
-                      'scalar_sub_product': ('mask none x nonfinite data x error given' if tier == 'quick' else
-                                             'masks {none, pixel} x both data variants x error {given, None}')
+            'bound': {'units': len(plan(tier, seed)),
+                      'configs_per_unit': {f'{v}/{m}': len(all_cfgs(v, m)) for v in VARIANTS for m in MASKS},
+                      'error_conditions_not_repeated': 'nf-masked with mask none, nf-data with finite data, nf-clipped without '
+                                                       'sigma clip (map identical to the finite one by construction)',
+                      'scalar_sub_product': (f'mask none x nonfinite data x error {SCALAR_ERRORS_QUICK}' if tier == 'quick' else
+                                             'masks {none, pixel} x both data variants x every error condition')
                       + ' x clip x sum_method x local_bkg, every position as a scalar aperture',
                       'sky_sub_product': 'mask pixel x both data variants x all configs'}}
